@@ -75,6 +75,7 @@ def run_cases(chk, cases, oracle_sig='trace-differs-from-source-semantics', do_g
     """returns per-case dicts; fills chk with violations / disagreements / counts"""
     stats = stats if stats is not None else {}
     for k in ('cases', 'rejected_by_compiler', 'timeouts', 'impl_faults', 'uninterpreted',
+              'float_sensitive_skipped', 'float_range_skipped',
               'sem_mismatch', 'vm_mismatch', 'gen_mismatch', 'not_wf', 'events'):
         stats.setdefault(k, 0)
     runnable = []
@@ -90,6 +91,11 @@ def run_cases(chk, cases, oracle_sig='trace-differs-from-source-semantics', do_g
             continue
         if c.res.timeout:
             stats['timeouts'] += 1
+            continue
+        if c.res.float_range:
+            # Python's float overflowed (OverflowError): the model's numbers are unbounded
+            # rationals, so the run is outside the model
+            stats['float_range_skipped'] += 1
             continue
         stats['events'] += len(c.res.events)
         runnable.append(c)
@@ -122,7 +128,9 @@ def run_cases(chk, cases, oracle_sig='trace-differs-from-source-semantics', do_g
         if 'gen' in mine:
             model = answers[mine['gen']].split('\x1f') if answers[mine['gen']] else []
             impl = [percent_encode(x) for x in vmwire.enc_program(c.res.program)]
-            if model != impl:
+            if model != impl and vmwire.drop_self_moves(model) == vmwire.drop_self_moves(impl):
+                stats['gen_equal_modulo_self_moves'] = stats.get('gen_equal_modulo_self_moves', 0) + 1
+            elif model != impl:
                 stats['gen_mismatch'] += 1
                 k = next((i for i, (a, b) in enumerate(zip(impl, model)) if a != b),
                          min(len(impl), len(model)))
@@ -135,7 +143,9 @@ def run_cases(chk, cases, oracle_sig='trace-differs-from-source-semantics', do_g
                 stats['uninterpreted'] += 1
             else:
                 ok, i, why = vmwire.events_match(c.res.events, events, slack)
-                if impl_fault != status.startswith('fault') or not ok:
+                if (impl_fault != status.startswith('fault') or not ok) and c.res.float_sensitive:
+                    pass    # counted below (float_sensitive_skipped)
+                elif impl_fault != status.startswith('fault') or not ok:
                     stats['vm_mismatch'] += 1
                     chk.disagreement('vm.run', {'script': c.text, 'population': c.pop, 'why': why,
                                                 'index': i, 'impl_fault': c.res.fault},
@@ -157,8 +167,14 @@ def run_cases(chk, cases, oracle_sig='trace-differs-from-source-semantics', do_g
                     ok, i, why = vmwire.events_match(c.res.events, events, slack)
                 # a script the source semantics runs to the end must not fault in the VM, and
                 # must produce the same commands, waits and output
-                if (impl_fault and not status.startswith('fault')) or \
-                        (not impl_fault and status.startswith('fault')) or not ok:
+                differs = (impl_fault and not status.startswith('fault')) or \
+                    (not impl_fault and status.startswith('fault')) or not ok
+                if differs and c.res.float_sensitive:
+                    # the real run took a decision within floating-point rounding noise (see
+                    # runimpl.install_float_watch); exact rationals decide it differently
+                    stats['float_sensitive_skipped'] += 1
+                    info['float_sensitive'] = c.res.float_sensitive[:3]
+                elif differs:
                     stats['sem_mismatch'] += 1
                     info['violation'] = True
                     what = ('the VM aborts the script ({})'.format(c.res.fault) if impl_fault and
